@@ -562,7 +562,7 @@ func (pid *PID) Child(name string) (*PID, error) {
 	childAddress := pid.childAddress(name)
 	if cidNode, ok := pid.actorSystem.tree().node(childAddress.String()); ok {
 		cid := cidNode.value()
-		if cid.IsRunning() {
+		if cid != nil && cid.IsRunning() {
 			return cid, nil
 		}
 	}
@@ -3521,7 +3521,7 @@ func (pid *PID) findRunningChild(tree *tree, childAddress string) (*PID, bool) {
 	}
 
 	cid := cnode.value()
-	if !cid.IsRunning() {
+	if cid == nil || !cid.IsRunning() {
 		return nil, false
 	}
 	return cid, true
